@@ -500,3 +500,53 @@ func validText(t *table) bool {
 }
 
 var bom = string(rune(0xFEFF))
+
+// ---------- the size band around the loaders' prepared capacity ----------
+
+// fileLoadingPreparedRecordSetCap in lib/query/load_view.go: readRecordSet (CSV/TSV/LTSV/fixed) and the
+// JSON Lines loader allocate room for this many records and re-allocate + copy when the file has more
+const preparedCap = 300
+
+// genBigRows: a record count in 280..700, weighted towards the capacity and its growth step
+func genBigRows(g *hc.Gen) int {
+	switch g.Intn(4) {
+	case 0:
+		return preparedCap - 2 + g.Intn(6) // 298..303
+	case 1:
+		return preparedCap + 1 + g.Intn(80) // just beyond: the re-allocated set is filled by append
+	}
+	return 280 + g.Intn(421)
+}
+
+// genBigTable: many records, short plain cells every format spells; column 0 identifies the record
+func genBigTable(g *hc.Gen, nr int) *table {
+	nc := 2 + g.Intn(2)
+	t := &table{header: genHeader(g, nc, risk{}, true), rows: make([][]cell, nr)}
+	words := []string{"a", "bc", "Q", "x_y", "k", "v1", "7", "é"}
+	for i := range t.rows {
+		t.rows[i] = make([]cell, nc)
+		t.rows[i][0] = mkCell(value.NewString(fmt.Sprintf("r%d", i)))
+		for j := 1; j < nc; j++ {
+			switch g.Intn(6) {
+			case 0:
+				t.rows[i][j] = mkCell(value.NewInteger(int64(g.Intn(1000))))
+			case 1:
+				t.rows[i][j] = mkCell(value.NewNull())
+			default:
+				t.rows[i][j] = mkCell(value.NewString(words[g.Intn(len(words))]))
+			}
+		}
+	}
+	return t
+}
+
+// bigOpts: settings without any of the known-finding causes (UTF-8, LF or CRLF)
+func bigOpts(g *hc.Gen, f option.Format) opts {
+	o := genOpts(g, f)
+	o.enc = text.UTF8
+	if o.lb == text.CR {
+		o.lb = text.CRLF
+	}
+	o.allowUneven = false
+	return o
+}
